@@ -2400,7 +2400,16 @@ public:
     SBEPP_CPP14_CONSTEXPR reference operator[](size_type pos) const noexcept
     {
         SBEPP_ASSERT(pos < size());
-        return *(begin() + pos);
+        // `pos` can be greater than `difference_type`'s maximum (e.g. 200 when
+        // `numInGroup` is `uint8_t`) so `begin() + pos` is not an option
+        auto dimension = (*this)(get_header_tag{});
+        const auto block_length = dimension.blockLength().value();
+        return *iterator{
+            (*this)(addressof_tag{}) + sbepp::size_bytes(dimension)
+                + static_cast<std::size_t>(pos) * block_length,
+            block_length,
+            pos,
+            (*this)(end_ptr_tag{})};
     }
 
     //! @brief Returns the first entry
